@@ -129,6 +129,13 @@ pub fn run(run: &Run) {
             }
         });
     }
+    battery(run, "misordered_marks", &misordered_mark_strings(), &|s, l| match check(run, s, l) {
+        Ok(()) => true,
+        Err(v) => {
+            run.violate(v);
+            false
+        }
+    });
     collisions(run, "fingerprint_collisions", &|s, l| match check(run, s, l) {
         Ok(()) => true,
         Err(v) => {
